@@ -300,7 +300,7 @@ class JetSc:
                 self._touch(abs(u))
             else:
                 self._touch(u)
-            if not b.lit:
+            if not b.lit and not (k == int(k) and k >= 2 and getattr(self, "judge_param_pow_at_zero", True)):
                 # a constant exponent that is not a literal (parameter, constant sub-expression):
                 # the textbook general rule a^b (b' ln a + b a'/a) is 0*inf at a = 0 although the
                 # derivative exists there; that single point is left unjudged
